@@ -6,3 +6,4 @@ pub mod prng;
 pub mod runner;
 #[macro_use]
 pub mod sim;
+pub mod threads;
